@@ -57,6 +57,7 @@ def run(ctx):
     lines = [tx.line(extra="flush=4", script=script) for (_, _, tx, script, _) in cases]
     res = rxlib.run_rx(lines, check_model=False)
     ctx.coverage["known_finding_F9_witness_reproduces"] = rxlib.run_f9_witness(ctx, "C14")
+    ctx.coverage["known_finding_F11_witness_reproduces"] = rxlib.run_f11_witness(ctx, "C14")
     # model: main run + each flush call
     reqs = []
     for r in res:
@@ -99,6 +100,8 @@ def run(ctx):
             bad = "repeated flush() did not end with None within 4 calls (%s)" % flushed[:80]
         elif "none" in fl[:-1]:
             bad = "flush() returned None before a later call returned a message (%s)" % flushed[:80]
+        if bad and rxlib.f11_known(ctx, "C14", tx, ev, [tx.H, b"NNNN"]):
+            bad = None
         if bad:
             ctx.violation("property", "%s [%s, cut %.3f s after the last burst, %s]" % (bad, kind, cut, tx.describe()),
                           {"input": line, "events": r["impl"][:2000], "flushed": flushed})
